@@ -190,6 +190,7 @@ TE(P, sc, e) ==
     ELSE IF e.k = "tchk" THEN
         (LET l == TE(P, sc, e.l) IN R(TB("W"), l.bad \cup Need(IsVar(l.t), <<l.t>>, "type:operand") \cup (IF IsVar(N(e.t)) THEN {"type:operand"} ELSE {}) \cup TypeRule(P, e.t)))
     ELSE IF e.k = "std" THEN R(N(e.t), TypeRule(P, e.t))
+    ELSE IF e.k = "size" THEN R(TB("Z"), TypeRule(P, e.t))      \* die Größe von <Typ> is a Zahl
     ELSE IF e.k = "list" THEN
         (IF e.vals = <<>> THEN R([l |-> N(e.et)], TypeRule(P, e.et))
          ELSE LET f == TE(P, sc, e.vals[1]) IN R(IF IsErr(f.t) THEN ERR ELSE [l |-> f.t], f.bad \cup TList(P, sc, e.vals, f.t, 2)))
